@@ -721,6 +721,8 @@ def check_abandoned(session, d, ctx, rng):
     k = rng.randint(1, n - 1) if (declared and n >= 2) else rng.randint(1, n)
     path = os.path.join(d, "abandoned.gro")
     over_existing = declared and rng.random() < 0.6
+    stop_by_refusal = rng.random() < 0.5
+    refused = False
     try:
         if over_existing:
             # the path already holds the COMPLETE file of an earlier, identical session (a new frame written over the old one)
@@ -737,6 +739,18 @@ def check_abandoned(session, d, ctx, rng):
             f.natoms = n
         for r in recs[:k]:
             f.writeline(list(r))
+        if stop_by_refusal:
+            # writing stops because the writer itself refuses the next record (a field missing, a coordinate that is not a
+            # number, velocities on one record only); the caller's loop dies with that error and never closes
+            nxt = list(recs[k % n])
+            bad = {0: nxt[:5], 1: nxt[:4] + ["not-a-number"] + nxt[5:],
+                   2: (nxt[:7] if len(nxt) == 10 else nxt + [0.1, 0.2, 0.3])}[rng.randrange(3)]
+            try:
+                f.writeline(bad)
+                refused = False
+            except Exception:
+                refused = True
+            ctx.probe("writer_refused_a_record_then_dropped" if refused else "odd_record_taken_by_the_writer")
         del f
         gc.collect()
     except Exception as e:
@@ -746,7 +760,9 @@ def check_abandoned(session, d, ctx, rng):
     got = try_read(path, None)
     if got is not None:
         ctx.violate(P, "abandoned-file-accepted", f"a writer was dropped without close() after {k} of {n} records (count "
-                                                  f"{'declared' if declared else 'not declared'}); the file it left behind opens "
+                                                  f"{'declared' if declared else 'not declared'}"
+                                                  f"{', the last thing it did was refuse a malformed record' if stop_by_refusal else ''}"
+                                                  f"); the file it left behind opens "
                                                   f"without an error", key="declared" if declared else "undeclared")
         return "Dacc"
     return "D"
